@@ -925,7 +925,26 @@ def classify_crash(rd, exc, sel):
 
 # -------------------------------------------------------------------------------- does not compile
 
-def compile_break_key(be, nd, form, msgs):
+def verbatim_quoted(nd, line):
+    """the exported line carries a string value with its double quotes verbatim (unescaped) between double quotes"""
+    return any('"' in s and ('"' + s + '"') in line for s in flatten(nd['value']) if isinstance(s, str))
+
+
+def rust_literal_left_open(line):
+    """lexed by Rust rules (backslash escapes), the line ends inside a string literal"""
+    inside, i = False, 0
+    while i < len(line):
+        ch = line[i]
+        if inside and ch == '\\':
+            i += 2
+            continue
+        if ch == '"':
+            inside = not inside
+        i += 1
+    return inside
+
+
+def compile_break_key(be, nd, form, msgs, line):
     """key of the recorded defect that explains a compile error on this symbol's line, else None"""
     k, bits, uns = dt_info(nd['dt'])
     text = ' | '.join(msgs)
@@ -937,7 +956,7 @@ def compile_break_key(be, nd, form, msgs):
             return 'none-emitted-as-bare-None'
         if be == 'fortran' and "'none'" in text.lower():
             return 'none-emitted-as-bare-None'
-    if k == 'str' and nd['value'] is not None and has_dquote(nd):
+    if k == 'str' and nd['value'] is not None and has_dquote(nd) and verbatim_quoted(nd, line):
         if be in ('c', 'cpp') and any(c_literal_twin(s) is None for s in flat):
             return 'unescaped-double-quote'
         if be == 'rust':
@@ -973,16 +992,17 @@ def classify_compile_error(rd, res, expected, text):
     explained, unexplained = [], []
     for name, msgs in res['blamed'].items():
         rel, nd = expected[name]
-        key = compile_break_key(be, nd, sym_form(be, rd.opt, rel), msgs)
         ln = decl.get(name)
         line = lines[ln - 1] if ln else ''
+        key = compile_break_key(be, nd, sym_form(be, rd.opt, rel), msgs, line)
         (explained if key else unexplained).append((key, nd, line, msgs))
     if be == 'rust':
         # a Rust string literal may span lines: an odd number of quotes shifts the error to a later line
         errlines = [int(m.group(1)) for msgs in res['blamed'].values() for x in msgs for m in [re.match(r'^config\.rs:(\d+):', x)] if m]
         done = {nd['path'] for _, nd, _, _ in explained}
         for name, (rel, nd) in expected.items():
-            if has_dquote(nd) and nd['path'] not in done and decl.get(name) and any(l >= decl[name] for l in errlines):
+            if has_dquote(nd) and nd['path'] not in done and decl.get(name) and any(l >= decl[name] for l in errlines) \
+                    and verbatim_quoted(nd, lines[decl[name] - 1]) and rust_literal_left_open(lines[decl[name] - 1]):
                 explained.append(('unescaped-double-quote', nd, lines[decl[name] - 1], ['error at or after this line: ' + res['message'][:160]]))
     if explained:
         for key, nd, line, msgs in explained:
